@@ -38,8 +38,7 @@ def run(ctx, replay):
                 scen.append(synccommon.to_scenario(n, h, np))
     sp = ctx.write_scenarios(scen)
     tp = os.path.join(ctx.work, "trace.ndjson")
-    r = ctx.dv(["world", sp, tp], timeout=3000)
-    ctx.cov["steps_executed"] += r.get("events", 0)
+    ctx.dv_world(sp, tp)
     cfg = "CONSTANTS\n  KNOWN = {%s}\nSPECIFICATION TSpec\nINVARIANT Monitors\nPOSTCONDITION Reached\nCHECK_DEADLOCK FALSE\n" % (
         ", ".join('"%s"' % k for k in known_ids))
     res = ctx.validate(D, "Trace_DailyLog", cfg, tp, "val", chunk=100, max_fail=5)
